@@ -551,6 +551,50 @@ fn gen_c05(rng: &mut Rng, thorough: bool, out: &mut Cases) {
         w.opt_filter(&f);
         out.push(23, w);
     }
+    // a payload that itself contains a complete stored DLT record (a tunnelled log line), every cut
+    for i in 0..(if thorough { 300 } else { 30 }) {
+        let inner = gen_message(rng, &MsgOpts { storage: Some(true), max_args: 1, max_blob: 4, ..MsgOpts::default() });
+        let inner_bytes = match std::panic::catch_unwind(|| inner.as_bytes()) {
+            Ok(b) if b.len() < 80 => b,
+            _ => continue,
+        };
+        let pre = rng.below(3) as usize;
+        let mut body = rng.bytes(pre);
+        body.extend_from_slice(&inner_bytes);
+        let post = 1 + rng.below(4) as usize;
+        body.extend_from_slice(&rng.bytes(post));
+        let sh = if i % 3 == 0 { None } else { Some(StorageHeader { timestamp: DltTimeStamp { seconds: 1, microseconds: 2 }, ecu_id: "E".to_string() }) };
+        let conf = MessageConfig {
+            version: 1,
+            counter: i as u8,
+            endianness: if rng.bool() { Endianness::Big } else { Endianness::Little },
+            ecu_id: if rng.bool() { Some("ECU1".to_string()) } else { None },
+            session_id: None,
+            timestamp: None,
+            payload: if i % 2 == 0 { PayloadContent::NonVerbose(rng.next() as u32, body.clone()) } else {
+                PayloadContent::Verbose(vec![Argument {
+                    type_info: TypeInfo { kind: TypeInfoKind::Raw, coding: StringCoding::ASCII, has_variable_info: false, has_trace_info: false },
+                    name: None,
+                    unit: None,
+                    fixed_point: None,
+                    value: Value::Raw(body.clone()),
+                }])
+            },
+            extended_header_info: if i % 2 == 0 && i % 4 != 0 { None } else {
+                Some(ExtendedHeaderConfig { message_type: MessageType::Log(LogLevel::Info), app_id: "APP".to_string(), context_id: "CTX".to_string() })
+            },
+        };
+        let m = match std::panic::catch_unwind(|| Message::new(conf, sh)) {
+            Ok(m) => m,
+            Err(_) => continue,
+        };
+        let mut w = W::new();
+        w.msg(&m);
+        w.opt_filter(&None);
+        out.push(23, w);
+    }
+    // junk in front of a cut message (C05 through C06)
+    gen_junkcut(rng, if thorough { 200 } else { 25 }, out);
     // boundary totals (length field 65519 .. 65535) at selected cut positions, both storage modes
     let nb = if thorough { 200 } else { 24 };
     for i in 0..nb {
@@ -657,6 +701,8 @@ fn gen_c06(rng: &mut Rng, thorough: bool, out: &mut Cases) {
         w.opt_filter(&if i % 3 == 0 { Some(gen_filter(rng, Some(&m))) } else { None });
         out.push(24, w);
     }
+    gen_bigjunk(rng, thorough, out);
+    gen_junkcut(rng, if thorough { 150 } else { 20 }, out);
     // streams with junk between messages
     for _ in 0..n / 16 {
         let k = rng.range(1, 5);
@@ -984,6 +1030,8 @@ fn gen_c02(rng: &mut Rng, thorough: bool, out: &mut Cases) {
             }
         }
     }
+    gen_bigjunk(rng, thorough, out);
+    gen_junkcut(rng, if thorough { 150 } else { 20 }, out);
     // junk in front of storage-header messages, partial markers
     for i in 0..n / 10 {
         let m = gen_message(rng, &MsgOpts { storage: Some(true), ..MsgOpts::default() });
@@ -1076,6 +1124,8 @@ fn gen_c19(rng: &mut Rng, thorough: bool, out: &mut Cases) {
         w.b(&s);
         out.push(3, w);
     }
+    // a buffer that ends inside an id field, with junk in front of the storage header
+    gen_junkcut(rng, if thorough { 150 } else { 20 }, out);
     // the 4-byte ids of messages obey the same rule: parse messages whose ids are arbitrary bytes
     for _ in 0..n / 10 {
         let mut ins = vec![];
@@ -1211,4 +1261,56 @@ pub fn generate(prop: &str, seed: u64, thorough: bool) -> Cases {
         _ => panic!("no generator for {}", prop),
     }
     out
+}
+
+/// op 35: long constant junk in front of a storage-header message (lengths around 64 KiB, 1 MiB, 10 MiB, 16 MiB, 2^32)
+pub fn gen_bigjunk(rng: &mut Rng, thorough: bool, out: &mut Cases) {
+    let ten = 10usize * 1024 * 1024;
+    let mut ns: Vec<(u128, u8)> = vec![
+        (65548, 0x2e), (65551, 0x44), (1 << 20, 0x00), ((ten - 4) as u128, 0x2e), ((ten - 3) as u128, 0x00), (ten as u128, 0x44),
+        ((ten + 5) as u128, 0x00), ((1 << 24) + 1, 0x00), ((1u128 << 32) + 7, 0x00),
+    ];
+    if thorough {
+        ns.extend_from_slice(&[((1 << 26) + 3, 0x54), ((1u128 << 32) - 3, 0x00), ((1u128 << 33) + 1, 0x00)]);
+    }
+    for (i, (n, fill)) in ns.iter().enumerate() {
+        let m = gen_message(rng, &MsgOpts { storage: Some(true), ..MsgOpts::default() });
+        let mut w = W::new();
+        w.n(*n);
+        w.n(*fill as u128);
+        w.msg(&m);
+        w.b(&if i % 2 == 0 { gen_suffix(rng) } else { vec![] });
+        out.push(35, w);
+    }
+}
+
+/// op 36: short pattern-free junk, then every cut of a small storage-header message
+pub fn gen_junkcut(rng: &mut Rng, nmsgs: usize, out: &mut Cases) {
+    for i in 0..nmsgs {
+        let mut o = msg_opts_for(rng, i);
+        o.storage = Some(true);
+        o.target_total = None;
+        o.max_args = 2;
+        o.max_blob = 6;
+        let m = gen_message(rng, &o);
+        let len = match std::panic::catch_unwind(|| m.as_bytes().len()) {
+            Ok(l) if l <= 140 => l,
+            _ => continue,
+        };
+        let junk = match i % 4 {
+            0 => vec![0x00],
+            1 => vec![0x44, 0x4c, 0x54],
+            _ => gen_junk(rng),
+        };
+        if junk.is_empty() {
+            continue;
+        }
+        for k in 0..len {
+            let mut w = W::new();
+            w.b(&junk);
+            w.msg(&m);
+            w.n(k as u128);
+            out.push(36, w);
+        }
+    }
 }
